@@ -125,7 +125,7 @@ def main():
         ],
         "checks": checks,
         "not_applicable": na,
-        "notes": "All checks are static: they load and type-check /repo's working tree on every run and execute nothing from it. Genuine defects found are repaired by 'fix:' commits in /repo and recorded under 'fixed' in /verif/known_findings.json.",
+        "notes": "All checks are static: they load and type-check /repo's working tree on every run and execute nothing from it. quick: all rules of the property on the default (amd64) build. thorough: the same rules additionally on the module's GOARCH=386 build (obligation keys prefixed 386:), followed by the checker's mutation self-test — every confirmed seeded change in /verif/seeded recorded as detected by this property is applied as an in-memory overlay on the current working tree and must still be reported (a change that is no longer detected fails the run as <id>.selftest; a patch that no longer applies is skipped and listed). Genuine defects found are repaired by 'fix:' commits in /repo and recorded under 'fixed' in /verif/known_findings.json.",
     }
     json.dump(m, open(os.path.join(here, "MANIFEST.json"), "w"), indent=1)
     print("claimed:", sorted(CLAIMED), "not claimed:", [x["property_id"] for x in na])
